@@ -156,11 +156,85 @@ def shared_default_objects(R, rule):
     R.check(n >= 20, rule, "defaults", "asynq/", "%d parameter defaults examined" % n, "fewer than 20 parameter defaults found (%d)" % n)
 
 
+LOCK_TYPES = ("Lock", "RLock", "Semaphore", "BoundedSemaphore", "Condition", "Event", "Barrier")
+
+
+def process_wide_locks(R, rule):
+    """A synchronisation object bound at module or class level is shared by all threads.  Held while user code runs (a flush body, a
+    flush hook, a task step, anything that can wait for another thread) it makes one thread's computation wait for another's - or for
+    ever, when that other computation needs a flush of its own: the threads are no longer independent."""
+    repo = R.repo
+    n = 0
+    for mname, m in sorted(repo.modules.items()):
+        if mname.startswith("tests"):
+            continue
+        locks = set()
+        for targets, value, node in repo.module_assigns(m):
+            if isinstance(value, ast.Call) and (q.call_name(value) or "").split(".")[-1] in LOCK_TYPES:
+                locks.update(targets)
+        for c in m.classes.values():
+            for aname, anode in c.class_assigns.items():
+                if isinstance(anode.value, ast.Call) and (q.call_name(anode.value) or "").split(".")[-1] in LOCK_TYPES:
+                    locks.add(aname)
+        if not locks:
+            continue
+        for f in m.all_functions.values():
+            for w in [x for x in q.scope_nodes(f.node) if isinstance(x, (ast.With, ast.AsyncWith))]:
+                held = [q.src(i.context_expr) for i in w.items if q.src(i.context_expr).split(".")[-1] in locks]
+                if not held:
+                    continue
+                n += 1
+                user = [c_ for st in w.body for c_ in q.calls(st)
+                        if q.attr_call(c_)[1] in ("flush", "_flush", "_compute", "_continue", "value", "wait_for", "get_priority", "pause", "resume", "send", "throw")
+                        or (q.attr_call(c_)[1] or "").startswith("on_") or (q.call_name(c_) or "").startswith("self.on_")]
+                R.check(not user, rule, "%s:holds:%s" % (f.qualname, held[0]), R.site(f, w),
+                        "the process-wide %s is not held while user code runs" % held[0],
+                        "%s runs `%s` while holding %s, a lock shared by all threads: a flush that is slow, or that waits for another thread's computation "
+                        "(which needs a flush of its own), stalls or deadlocks the other threads - a computation no longer behaves as when it runs alone"
+                        % (f.qualname, q.src(user[0])[:40] if user else "", held[0]))
+    if not n:
+        R.ok(rule, "asynq/", "no function holds a module- or class-level synchronisation object")
+
+
+def shared_table_not_iterated(R, rule):
+    """The deduplication table is one dict for all threads (entries are keyed by thread).  Keyed access to one's own entries is safe;
+    walking the whole dict (a loop, a comprehension, list()/sorted() over it or over its keys()/items()/values()) is not: another
+    thread inserting or removing its own entry in the middle raises 'dictionary changed size during iteration' in the walking thread."""
+    dd = R.repo.cls("tools.DeduplicateDecorator")
+    n = 0
+    for f in R.repo.all_functions():
+        if f.module.name.startswith("tests"):
+            continue
+        for x in q.scope_nodes(f.node):
+            its = []
+            if isinstance(x, ast.For):
+                its = [x.iter]
+            elif isinstance(x, (ast.ListComp, ast.SetComp, ast.DictComp, ast.GeneratorExp)):
+                its = [g.iter for g in x.generators]
+            elif isinstance(x, ast.Call) and q.call_name(x) in ("list", "tuple", "sorted", "set", "len", "any", "all", "sum", "max", "min") and x.args:
+                its = [x.args[0]] if q.call_name(x) != "len" else []
+            for it in its:
+                base = it
+                if isinstance(base, ast.Call) and q.attr_call(base)[1] in ("keys", "values", "items", "copy"):
+                    base = q.attr_call(base)[0]
+                if isinstance(base, ast.Attribute) and base.attr == "tasks" and isinstance(base.value, ast.Name) and base.value.id in ("self", "cls", dd.name):
+                    if f.cls is not None and (f.cls is dd or f.cls.is_subclass_of(dd)) or base.value.id == dd.name:
+                        n += 1
+                        R.violation(rule, "%s:iterates-table" % f.qualname, R.site(f, x),
+                                    "%s walks the table of tasks in flight (`%s`), which all threads share: a thread that adds or removes its own entry meanwhile makes "
+                                    "the walk raise RuntimeError('dictionary changed size during iteration') - a call fails only because other threads are "
+                                    "running" % (f.qualname, q.src(it)[:40]))
+    if not n:
+        R.ok(rule, R.site(dd.module, dd.node), "the shared table of tasks in flight is only accessed by key")
+
+
 def run(R):
     R.extra["explanation"] = EXPLANATION
     ro = Roles(R)
     repo = R.repo
     shared_default_objects(R, "C16.STATE")
+    process_wide_locks(R, "C16.STATE")
+    shared_table_not_iterated(R, "C16.STATE")
     n_bind = 0
     classes_count = {}
     for mname, m in sorted(repo.modules.items()):
